@@ -95,11 +95,14 @@ func (s *PersistentHybridIndex) compactSegments(segments []*segmentMetadata) err
 	s.mu.Lock()
 
 	// Add new segment
+	verifPoint("compact.before_register", newSegmentID)
 	s.segmentManager.add(newSegment)
+	verifPoint("compact.registered", newSegmentID)
 
 	// Remove old segments
 	for _, seg := range segments {
 		s.segmentManager.remove(seg.id)
+		verifPoint("compact.unregistered", seg.id)
 
 		// Delete old segment files
 		if err := s.provider.deleteSegment(seg.id); err != nil {
@@ -194,6 +197,7 @@ func (s *PersistentHybridIndex) writeIndexToSegment(
 		metadataGz.Close()
 	}
 	hybridGz.Close()
+	verifPoint("compact.closed")
 
 	return nil
 }
